@@ -10,9 +10,11 @@ import (
 	"strings"
 
 	"com.tuntun.rangers/node/src/common"
+	"com.tuntun.rangers/node/src/core"
 	crypto "com.tuntun.rangers/node/src/eth_crypto"
 	"com.tuntun.rangers/node/src/middleware/db"
 	"com.tuntun.rangers/node/src/middleware/types"
+	"com.tuntun.rangers/node/src/service"
 	"com.tuntun.rangers/node/src/storage/account"
 	"com.tuntun.rangers/node/src/vm"
 	"verif/harness/hxnode"
@@ -31,6 +33,8 @@ const (
 
 func boot() {
 	hxnode.BootServices("dev")
+	core.VerifC01InitLoggers()
+	core.VerifC06Init() // refund manager singleton (UNSTAKE / UNSTAKEALL go through service.RefundManagerImpl)
 	common.SetBlockHeight(blockHeight)
 }
 
@@ -280,6 +284,7 @@ type harness struct {
 	idx      int
 	hostCode map[string][]byte // deployed dispatcher per host (to print code tag "H")
 	events   []event
+	miners   map[string][]byte // miner account name -> miner id
 	// searcher probe state
 	probe *probeState
 	cfg   blockCfg
@@ -350,6 +355,28 @@ func (h *harness) reset(blk *block) string {
 			h.hostCode["b"+strconv.Itoa(a.n)] = code
 		}
 	}
+	// miner accounts: register a validator with the minimum stake (AddMiner takes it out of the balance),
+	// then flush so that GetMinerIdByAccount (a trie iterator) finds it
+	h.miners = map[string][]byte{}
+	for _, a := range blk.accounts {
+		if a.kind != "m" {
+			continue
+		}
+		addr := h.ab.base(a.n)
+		stake := new(big.Int).Mul(oneRPG, big.NewInt(int64(common.ValidatorStake)))
+		adb.AddBalance(addr, stake)
+		id := make([]byte, 32)
+		id[0], id[31] = 0x3d, byte(a.n)
+		m := &types.Miner{Id: id, PublicKey: []byte{1}, VrfPublicKey: []byte{2}, Type: common.MinerTypeValidator,
+			Stake: common.ValidatorStake, Account: addr[:], Status: common.MinerStatusNormal}
+		if ok, msg := service.MinerManagerImpl.AddMiner(addr, m, adb); !ok {
+			panic("AddMiner: " + msg)
+		}
+		h.miners["b"+strconv.Itoa(a.n)] = id
+	}
+	if len(h.miners) > 0 {
+		adb.IntermediateRoot(false)
+	}
 	return h.dump()
 }
 
@@ -414,7 +441,7 @@ func errName(err error) string {
 	if _, ok := err.(*vm.ErrInvalidOpCode); ok {
 		return "invalid"
 	}
-	if strings.HasPrefix(err.Error(), "no such miner") {
+	if strings.HasPrefix(err.Error(), "no such miner") || err.Error() == "miner not existed" {
 		return "no-such-miner"
 	}
 	return "other:" + strings.ReplaceAll(err.Error(), " ", "_")
@@ -440,6 +467,14 @@ func (h *harness) newEVM(origin common.Address) *vm.EVM {
 // (vmexecutor.go:80-82,108-116,132-137,143-150) and contractExecutor.Execute
 // (contract_executor.go:161-186), fees left out.
 func (h *harness) runTx(tx *txn) txResult {
+	if stackHook != nil {
+		defer func() {
+			if r := recover(); r != nil {
+				stackHook()
+				panic(r)
+			}
+		}()
+	}
 	adb := h.adb
 	origin, _ := h.ab.resolveName(tx.origin)
 	h.seen[origin] = true
@@ -475,7 +510,7 @@ func (h *harness) runTx(tx *txn) txResult {
 		if h.probe != nil {
 			h.probe.onPre(-1)
 		}
-		_, _, _, logs, err = evm.Create(caller, prog.rootInit, gasCap, value)
+		_, _, _, logs, err = evm.Create(caller, prog.rootInit[tx], gasCap, value)
 	} else {
 		if common.IsProposal007() {
 			nonce := adb.GetNonce(origin)
@@ -650,5 +685,14 @@ func (h *harness) dump() string {
 		logs = append(logs, adb.GetLogs(hh)...)
 	}
 	sort.SliceStable(logs, func(i, j int) bool { return logs[i].Index < logs[j].Index })
-	return "A[" + strings.Join(accts, ";") + "] B[" + strings.Join(bals, ";") + "] L[" + h.logsStr(logs) + "] T[" + strings.Join(trans, ";") + "] X[" + strings.Join(acc, ";") + "]"
+	var stakes []string
+	for name, id := range h.miners {
+		st := uint64(0)
+		if m := service.MinerManagerImpl.GetMiner(id, adb); m != nil {
+			st = m.Stake
+		}
+		stakes = append(stakes, name+"="+strconv.FormatUint(st, 10))
+	}
+	sort.Strings(stakes)
+	return "A[" + strings.Join(accts, ";") + "] B[" + strings.Join(bals, ";") + "] L[" + h.logsStr(logs) + "] M[" + strings.Join(stakes, ";") + "] T[" + strings.Join(trans, ";") + "] X[" + strings.Join(acc, ";") + "] F=" + strconv.FormatUint(adb.GetRefund(), 10)
 }
